@@ -224,7 +224,7 @@ def canary_rows():
         t(c2, 2, 100000, 3100000, 3100010, "fire"),                      # fine: late but discard is off
         t(c2, 3, 100000, 3100000, 3600000, "fire", mw=1000000, pf=3100010, dur=1000000),           # next-shot-before-min-wait
         t(c2, 4, 100000, 3100000, 4700000, "fire", mw=1000000, pf=3600000, dur=999999),            # shot-shorter-than-min-wait
-        t(c2, 5, 100000, 3100000, 5800000, "fire", mw=1000000, pf=4700000, dur=4500001, srv=2500000),  # paced-longer-than-needed
+        t(c2, 5, 100000, 3100000, 5800000, "fire", mw=1000000, pf=4700000, dur=10500001, srv=2500000),  # paced-longer-than-needed
         {"ev": "end", "run": c2, "end": 4000000, "left": 0, "drawn": 5, "err": "", "timeout": False, "last": 100000, "orphans": 0},
         {"ev": "conf", "run": c2, "pool": 0, "key": "false", "got": True},
     ]
